@@ -24,5 +24,6 @@ CHECKS = {
     "C13": {"level": E, "units": [go("TestC13", 400, 15000), go("TestC13Unit", 320, 6000, netns=False)]},
     "C07": {"level": E, "units": [go("TestC07Gen", 50000, 2000000, netns=False), go("TestC07Conc", 600, 20000, race=True, netns=False, confirm=False), go("TestC07Wire", 500, 20000)]},
     "C05": {"level": E, "units": [go("TestC05", 600, 20000)]},
+    "C04": {"level": E, "units": [go("TestC04", 800, 20000)]},
     "C02": {"level": E, "units": [go("TestC02", 1600, 60000)]},
 }
